@@ -12,8 +12,14 @@ MUTANTS = [
     ('mirror vector wrong axis', [('mininec.Geobj.compute_connections', "invz = np.array ([1, 1, -1])", "invz = np.array ([1, -1, 1])")], ['grounded-pulse']),
     ('ground sign not applied', [('pulse.Pulse.__init__', "            self.gnd_sgn [self.ground] = -1\n", "")], ['grounded-pulse']),
     ('grounded objects count as connected', [('mininec.Geobj.is_connected', "        if other is self:", "        if any (self.is_ground) and any (other.is_ground):\n            return True\n        if other is self:")], ['no-object-ground-state']),
+    ('ground flag never set', [('pulse.Pulse.__init__', "            self.ground [gnd] = True", "            self.ground [gnd] = False")], ['grounded-pulse']),
+    ('inverse ground flags not swapped', [('pulse.Pulse.__init__', "np.array ([self.ground [1], self.ground [0]])", "np.array ([self.ground [0], self.ground [1]])")], ['grounded-pulse']),
+    ('ground sign computed but not multiplied in', [('pulse.Pulse.__init__', "            self.sign    = self.sign * self.gnd_sgn\n", "")], ['grounded-pulse']),
+    ('ground sign +1', [('pulse.Pulse.__init__', "            self.gnd_sgn [self.ground] = -1\n", "            self.gnd_sgn [self.ground] = 1\n")], ['grounded-pulse']),
 ]
 REFACTORS = [
     ('image_iter with list variable', [(M + 'image_iter', "        if self.media is None:\n            return iter ([1])\n        return iter ([1, -1])", "        if self.media is None:\n            return iter ([1])\n        else:\n            return iter ([1, -1])")]),
     ('Z accumulate reordered', [(M + 'compute_impedance_matrix', "self.Z    += k * (d + u12)", "self.Z    += (u12 + d) * k")]),
+    ('direction sign by conditional expression', [('pulse.Pulse.__init__', "        self.dir_sgn = sgn\n        if sgn is None:\n            self.dir_sgn = [1, 1]\n", "        self.dir_sgn = [1, 1] if sgn is None else sgn\n")]),
+    ('ground sign product commuted', [('pulse.Pulse.__init__', "            self.sign    = self.sign * self.gnd_sgn\n", "            self.sign    = self.gnd_sgn * self.sign\n")]),
 ]
